@@ -1,1 +1,46 @@
-// harness bodies compiled inside quinn-proto/src/endpoint.rs (feature __verif-hooks)
+// Harness bodies for quinn-proto/src/endpoint.rs.
+
+struct NullHmac;
+
+impl crate::crypto::HmacKey for NullHmac {
+    fn sign(&self, data: &[u8], out: &mut [u8]) {
+        for (i, b) in out.iter_mut().enumerate() {
+            *b = data.get(i % data.len().max(1)).copied().unwrap_or(0) ^ 0x5a;
+        }
+    }
+    fn signature_len(&self) -> usize {
+        32
+    }
+    fn verify(&self, _: &[u8], _: &[u8]) -> Result<(), crate::crypto::CryptoError> {
+        Ok(())
+    }
+}
+
+/// Native replay body for the E2 query `e2_stateless_reset` (builds a real Endpoint; never run
+/// under Kani).  A datagram for an unknown connection is either ignored or answered with a
+/// stateless reset that is STRICTLY smaller than the datagram, for every datagram length; the
+/// call never panics.
+pub fn stateless_reset_native(inciting_len: u16) -> u32 {
+    let mut cfg = EndpointConfig::new(Arc::new(NullHmac));
+    cfg.rng_seed(Some([7; 32]));
+    let mut ep = Endpoint::new(Arc::new(cfg), None, true);
+    let now = crate::verif::mk_instant(100, 0).unwrap();
+    let addresses = FourTuple { remote: "10.0.0.1:4433".parse().unwrap(), local_ip: None };
+    let mut buf = Vec::new();
+    let r = ep.stateless_reset(now, inciting_len as usize, addresses, ConnectionId::new(&[3; 8]), &mut buf);
+    match r {
+        None => {
+            assert!(inciting_len as usize <= 16 + 5, "a datagram large enough for a reset was ignored");
+            2
+        }
+        Some(t) => {
+            assert!(t.size == buf.len());
+            assert!(t.size < inciting_len as usize, "stateless reset not smaller than the inciting datagram");
+            assert!(t.size >= 5 + 16);
+            // an immediate second one is rate limited
+            let mut buf2 = Vec::new();
+            assert!(ep.stateless_reset(now, inciting_len as usize, addresses, ConnectionId::new(&[3; 8]), &mut buf2).is_none());
+            1
+        }
+    }
+}
